@@ -62,5 +62,11 @@ def independent_boson(inp):
     return {'violates': bool(bad), 'detail': bad[:4], 'n_bad': len(bad)}
 
 
+def cells_vs_quadrature(inp):
+    """the cells a correlations object returns against direct integration of its own correlation function (owned by C12)"""
+    from replay.c12 import cells_vs_quadrature as f
+    return f(inp)
+
+
 # thorough tier (bounded native sweeps): (function, inputs, obligation of the open finding it reproduces or None)
 THOROUGH = [('independent_boson', {}, None)]
